@@ -426,8 +426,11 @@ func genAdversarialOp(rng *rand.Rand, g *GenesisSpec) Op {
 }
 
 func genC20(rng *rand.Rand, seed uint64, tier string) *Script {
-	if rng.IntN(4) == 0 {
+	switch rng.IntN(6) {
+	case 0:
 		return genBusScript(rng, seed)
+	case 1:
+		return genFilterScript(rng, seed)
 	}
 	g, _ := mixedGenesis(rng)
 	g.Erc20Native, g.StakingCpc = true, true
@@ -454,8 +457,12 @@ func genC20(rng *rand.Rand, seed uint64, tier string) *Script {
 
 // runC20: the adversarial history, then the transparency twin.
 func runC20(rt *Runtime, r *RunCtx, s *Script) {
-	if s.Extra["sched"] == "bus" {
+	switch s.Extra["sched"] {
+	case "bus":
 		runBusScenario(rt, r, s)
+		return
+	case "filters":
+		runFilterScenario(rt, r, s)
 		return
 	}
 	var w *World
